@@ -35,6 +35,10 @@ pub struct Hist {
     /// the server, bit 2 = the probes arrive twice
     #[serde(default)]
     pub probe: u8,
+    /// TCP Fast Open style: the first `syn_bytes` bytes of the request travel in the SYN itself (they occupy the sequence
+    /// numbers from ISN+1 on, like any first segment); `segs` then describe the rest of the client stream
+    #[serde(default)]
+    pub syn_bytes: usize,
 }
 
 pub fn streams() -> Vec<(&'static str, Vec<u8>, Vec<u8>)> {
@@ -132,7 +136,7 @@ fn summary(x: &HttpRes) -> (Option<String>, Option<String>) {
 
 pub fn check(r: &mut Report, ss: &[(&'static str, Vec<u8>, Vec<u8>)], refs: &[(Option<String>, Option<String>)], h: &Hist) {
     let (name, req, resp) = &ss[h.stream];
-    let syn = pkt::build(&Spec { src: 1, sport: 40000, dst: 2, dport: 80, flags: SYN, seq: h.client_isn, ..Spec::default() });
+    let syn = pkt::build(&Spec { src: 1, sport: 40000, dst: 2, dport: 80, flags: SYN, seq: h.client_isn, payload: req[..h.syn_bytes.min(req.len())].to_vec(), ..Spec::default() });
     let synack = pkt::build(&Spec { src: 2, sport: 80, dst: 1, dport: 40000, flags: SYN | ACK, seq: h.server_isn, ack: h.client_isn.wrapping_add(1), ..Spec::default() });
     let frames: Vec<Vec<u8>> = h.segs.iter().map(|s| frame_for(h, req, resp, s)).collect();
     r.exec(2 + frames.len() as u64);
@@ -188,7 +192,7 @@ pub fn check(r: &mut Report, ss: &[(&'static str, Vec<u8>, Vec<u8>)], refs: &[(O
     let (exp_req, exp_resp) = &refs[h.stream];
     // reference byte-range tracker per direction
     let (hl_c, hl_s) = (head_len(h.stream, true, req), head_len(h.stream, false, resp));
-    let mut have_c: Vec<(usize, usize)> = vec![];
+    let mut have_c: Vec<(usize, usize)> = if h.syn_bytes > 0 { vec![(0, h.syn_bytes.min(req.len()))] } else { vec![] };
     let mut have_s: Vec<(usize, usize)> = vec![];
     let prefix = |have: &[(usize, usize)]| -> usize {
         let mut v = have.to_vec();
@@ -307,7 +311,7 @@ pub fn histories(ss: &[(&'static str, Vec<u8>, Vec<u8>)], thorough: bool) -> Vec
                             } else {
                                 segs.insert(0, whole);
                             }
-                            v.push(Hist { stream: si, client_isn: if client { isn } else { 7000 }, server_isn: if client { 9000 } else { isn }, segs, handshake: 0, fin: 0, probe: 0 });
+                            v.push(Hist { stream: si, client_isn: if client { isn } else { 7000 }, server_isn: if client { 9000 } else { isn }, segs, handshake: 0, fin: 0, probe: 0, syn_bytes: 0 });
                         }
                     }
                 }
@@ -323,7 +327,7 @@ pub fn histories(ss: &[(&'static str, Vec<u8>, Vec<u8>)], thorough: bool) -> Vec
                     let all = [a[0], a[1], b[0], b[1]];
                     let segs: Vec<(bool, usize, usize)> = order.iter().map(|&i| all[i]).collect();
                     for (ci, sidx) in [(u32::MAX - 20, u32::MAX - 30), (0x1000, 0x2000)] {
-                        v.push(Hist { stream: si, client_isn: ci, server_isn: sidx, segs: segs.clone(), handshake: 0, fin: 0, probe: 0 });
+                        v.push(Hist { stream: si, client_isn: ci, server_isn: sidx, segs: segs.clone(), handshake: 0, fin: 0, probe: 0, syn_bytes: 0 });
                     }
                 }
             }
@@ -338,21 +342,35 @@ pub fn histories(ss: &[(&'static str, Vec<u8>, Vec<u8>)], thorough: bool) -> Vec
                         for isn in [u32::MAX - (c2 as u32), 5] {
                             let mut segs: Vec<(bool, usize, usize)> = perm.iter().map(|&i| (true, part[i].0, part[i].1)).collect();
                             segs.push((false, 0, resp.len()));
-                            v.push(Hist { stream: si, client_isn: isn, server_isn: 1, segs, handshake: 0, fin: 0, probe: 0 });
+                            v.push(Hist { stream: si, client_isn: isn, server_isn: 1, segs, handshake: 0, fin: 0, probe: 0, syn_bytes: 0 });
                         }
                     }
+                }
+            }
+        }
+        // request bytes in the SYN (TCP Fast Open), at the initial sequence numbers around the wrap and elsewhere
+        for k in [1usize, 10, 40] {
+            if k >= req.len() {
+                continue;
+            }
+            for ci in [u32::MAX, u32::MAX - 1, u32::MAX - k as u32, u32::MAX - req.len() as u32, 0, 1, 0x1000, 1 << 31] {
+                let rest = req.len() - k;
+                v.push(Hist { stream: si, client_isn: ci, server_isn: 0x2000, segs: vec![(true, k, rest), (false, 0, resp.len())], handshake: 0, fin: 0, probe: 0, syn_bytes: k });
+                for c1 in (1..rest).step_by(19) {
+                    v.push(Hist { stream: si, client_isn: ci, server_isn: u32::MAX, segs: vec![(true, k, c1), (true, k + c1, rest - c1), (false, 0, resp.len())], handshake: 0, fin: 0, probe: 0, syn_bytes: k });
+                    v.push(Hist { stream: si, client_isn: ci, server_isn: 7, segs: vec![(true, k + c1, rest - c1), (true, k, c1), (false, 0, resp.len())], handshake: 0, fin: 0, probe: 0, syn_bytes: k });
                 }
             }
         }
         // keep-alive probes before the data
         for probe in [1u8, 2, 3, 7] {
             for (ci, sidx) in [(0x1000u32, 0x2000u32), (u32::MAX - 20, u32::MAX - 30), (0, 0), (u32::MAX, u32::MAX)] {
-                v.push(Hist { stream: si, client_isn: ci, server_isn: sidx, segs: vec![(true, 0, req.len()), (false, 0, resp.len())], handshake: 0, fin: 0, probe });
+                v.push(Hist { stream: si, client_isn: ci, server_isn: sidx, segs: vec![(true, 0, req.len()), (false, 0, resp.len())], handshake: 0, fin: 0, probe, syn_bytes: 0 });
                 for c1 in (1..req.len()).step_by(17) {
                     for c2 in (1..resp.len()).step_by(17) {
                         let (a, b, c, d) = ((true, 0, c1), (true, c1, req.len() - c1), (false, 0, c2), (false, c2, resp.len() - c2));
-                        v.push(Hist { stream: si, client_isn: ci, server_isn: sidx, segs: vec![a, b, c, d], handshake: 0, fin: 0, probe });
-                        v.push(Hist { stream: si, client_isn: ci, server_isn: sidx, segs: vec![b, a, d, c], handshake: 0, fin: 0, probe });
+                        v.push(Hist { stream: si, client_isn: ci, server_isn: sidx, segs: vec![a, b, c, d], handshake: 0, fin: 0, probe, syn_bytes: 0 });
+                        v.push(Hist { stream: si, client_isn: ci, server_isn: sidx, segs: vec![b, a, d, c], handshake: 0, fin: 0, probe, syn_bytes: 0 });
                     }
                 }
             }
@@ -360,13 +378,13 @@ pub fn histories(ss: &[(&'static str, Vec<u8>, Vec<u8>)], thorough: bool) -> Vec
         // teardown flags inside the exchange
         for fin in 1..=3u8 {
             for (ci, sidx) in [(0x1000u32, 0x2000u32), (u32::MAX - 20, u32::MAX - 30)] {
-                v.push(Hist { stream: si, client_isn: ci, server_isn: sidx, segs: vec![(true, 0, req.len()), (false, 0, resp.len())], handshake: 0, fin, probe: 0 });
+                v.push(Hist { stream: si, client_isn: ci, server_isn: sidx, segs: vec![(true, 0, req.len()), (false, 0, resp.len())], handshake: 0, fin, probe: 0, syn_bytes: 0 });
                 for c1 in (1..req.len()).step_by(13) {
                     for c2 in (1..resp.len()).step_by(13) {
                         let (a, b, c, d) = ((true, 0, c1), (true, c1, req.len() - c1), (false, 0, c2), (false, c2, resp.len() - c2));
-                        v.push(Hist { stream: si, client_isn: ci, server_isn: sidx, segs: vec![a, b, c, d], handshake: 0, fin, probe: 0 });
+                        v.push(Hist { stream: si, client_isn: ci, server_isn: sidx, segs: vec![a, b, c, d], handshake: 0, fin, probe: 0, syn_bytes: 0 });
                         // the server's pieces swapped (the FIN-carrying one first); the client's stay in order
-                        v.push(Hist { stream: si, client_isn: ci, server_isn: sidx, segs: vec![a, b, d, c], handshake: 0, fin, probe: 0 });
+                        v.push(Hist { stream: si, client_isn: ci, server_isn: sidx, segs: vec![a, b, d, c], handshake: 0, fin, probe: 0, syn_bytes: 0 });
                     }
                 }
             }
@@ -375,11 +393,11 @@ pub fn histories(ss: &[(&'static str, Vec<u8>, Vec<u8>)], thorough: bool) -> Vec
         // directions whole and in two pieces (cuts on a stride), in order and with the response first
         for hs in 1..=4u8 {
             for (ci, sidx) in [(0x1000u32, 0x2000u32), (u32::MAX - 20, u32::MAX - 30)] {
-                v.push(Hist { stream: si, client_isn: ci, server_isn: sidx, segs: vec![(true, 0, req.len()), (false, 0, resp.len())], handshake: hs, fin: 0, probe: 0 });
-                v.push(Hist { stream: si, client_isn: ci, server_isn: sidx, segs: vec![(false, 0, resp.len()), (true, 0, req.len())], handshake: hs, fin: 0, probe: 0 });
+                v.push(Hist { stream: si, client_isn: ci, server_isn: sidx, segs: vec![(true, 0, req.len()), (false, 0, resp.len())], handshake: hs, fin: 0, probe: 0, syn_bytes: 0 });
+                v.push(Hist { stream: si, client_isn: ci, server_isn: sidx, segs: vec![(false, 0, resp.len()), (true, 0, req.len())], handshake: hs, fin: 0, probe: 0, syn_bytes: 0 });
                 for c1 in (1..req.len()).step_by(13) {
                     for c2 in (1..resp.len()).step_by(13) {
-                        v.push(Hist { stream: si, client_isn: ci, server_isn: sidx, segs: vec![(true, 0, c1), (true, c1, req.len() - c1), (false, 0, c2), (false, c2, resp.len() - c2)], handshake: hs, fin: 0, probe: 0 });
+                        v.push(Hist { stream: si, client_isn: ci, server_isn: sidx, segs: vec![(true, 0, c1), (true, c1, req.len() - c1), (false, 0, c2), (false, c2, resp.len() - c2)], handshake: hs, fin: 0, probe: 0, syn_bytes: 0 });
                     }
                 }
             }
@@ -393,7 +411,7 @@ pub fn histories(ss: &[(&'static str, Vec<u8>, Vec<u8>)], thorough: bool) -> Vec
 fn slow_connections(r: &mut Report, ss: &[(&'static str, Vec<u8>, Vec<u8>)], refs: &[(Option<String>, Option<String>)]) {
     let mut runs: Vec<(usize, HttpSeq, Vec<Vec<u8>>, Vec<(Option<String>, Option<String>)>)> = vec![];
     for (si, (_n, req, resp)) in ss.iter().enumerate() {
-        let h = Hist { stream: si, client_isn: 0x7000, server_isn: 0x9000, segs: vec![(true, 0, req.len() / 2), (true, req.len() / 2, req.len() - req.len() / 2), (false, 0, resp.len() / 2), (false, resp.len() / 2, resp.len() - resp.len() / 2)], handshake: 0, fin: 0, probe: 0 };
+        let h = Hist { stream: si, client_isn: 0x7000, server_isn: 0x9000, segs: vec![(true, 0, req.len() / 2), (true, req.len() / 2, req.len() - req.len() / 2), (false, 0, resp.len() / 2), (false, resp.len() / 2, resp.len() - resp.len() / 2)], handshake: 0, fin: 0, probe: 0, syn_bytes: 0 };
         let mut frames = vec![pkt::build(&Spec { src: 1, sport: 40000, dst: 2, dport: 80, flags: SYN, seq: h.client_isn, ..Spec::default() }), pkt::build(&Spec { src: 2, sport: 80, dst: 1, dport: 40000, flags: SYN | ACK, seq: h.server_isn, ack: h.client_isn.wrapping_add(1), ..Spec::default() })];
         frames.extend(h.segs.iter().map(|sg| frame_for(&h, req, resp, sg)));
         runs.push((si, HttpSeq::new(None, 8), frames, vec![]));
@@ -441,7 +459,7 @@ pub fn run(thorough: bool) -> Outcome {
             if hs_ < resp.len() {
                 segs.push((false, hs_, resp.len() - hs_));
             }
-            let h = Hist { stream: si, client_isn: 1000, server_isn: 5000, segs, handshake: 0, fin: 0, probe: 0 };
+            let h = Hist { stream: si, client_isn: 1000, server_isn: 5000, segs, handshake: 0, fin: 0, probe: 0, syn_bytes: 0 };
             let syn = pkt::build(&Spec { src: 1, sport: 40000, dst: 2, dport: 80, flags: SYN, seq: 1000, ..Spec::default() });
             let mut a = HttpSeq::new(None, 8);
             a.feed(&syn);
@@ -471,7 +489,7 @@ pub fn run(thorough: bool) -> Outcome {
     slow_connections(&mut pre, &ss, &refs);
     Outcome {
         report: pre.merge(rep),
-        rule: "HTTP/1 (CRLF heads; bare-LF heads whose bodies contain CRLF blank lines; CRLF heads whose bodies contain LF blank lines; bodies that are not UTF-8) and HTTP/2 (single HEADERS frame; HEADERS + CONTINUATION frames) exchanges after SYN/SYN+ACK, reference = each direction cut exactly behind its head: every 1-, 2- and 3-partition (3-partitions on a stride in quick) of each direction x 9 initial sequence numbers (0, 1, 2^31, 2^31-10, 2^32-1, 2^32-2, 2^32-len, 2^32-len/2, 0x12345678) x every arrival permutation; both directions in two pieces each in all 24 interleavings (with and without wrap); four request pieces in all 24 orders; the handshake in 4 further shapes (SYN+ACK before SYN, retransmitted SYN+ACK, a stale SYN or SYN+ACK of the reversed orientation first) x whole and two-piece directions; teardown inside the exchange (FIN on the server's last segment, an empty client FIN between request and response, FIN on the client's last segment) x whole and two-piece directions; keep-alive probes (one garbage byte at sequence number ISN) from either or both sides before the data, once or twice; every stream once with 150 ms of real time between its packets; distinct = distinct per-packet report patterns".into(),
+        rule: "HTTP/1 (CRLF heads; bare-LF heads whose bodies contain CRLF blank lines; CRLF heads whose bodies contain LF blank lines; bodies that are not UTF-8) and HTTP/2 (single HEADERS frame; HEADERS + CONTINUATION frames) exchanges after SYN/SYN+ACK, reference = each direction cut exactly behind its head: every 1-, 2- and 3-partition (3-partitions on a stride in quick) of each direction x 9 initial sequence numbers (0, 1, 2^31, 2^31-10, 2^32-1, 2^32-2, 2^32-len, 2^32-len/2, 0x12345678) x every arrival permutation; both directions in two pieces each in all 24 interleavings (with and without wrap); four request pieces in all 24 orders; the handshake in 4 further shapes (SYN+ACK before SYN, retransmitted SYN+ACK, a stale SYN or SYN+ACK of the reversed orientation first) x whole and two-piece directions; teardown inside the exchange (FIN on the server's last segment, an empty client FIN between request and response, FIN on the client's last segment) x whole and two-piece directions; the first 1 / 10 / 40 request bytes inside the SYN (Fast Open) x 8 initial sequence numbers incl. 2^32-1; keep-alive probes (one garbage byte at sequence number ISN) from either or both sides before the data, once or twice; every stream once with 150 ms of real time between its packets; distinct = distinct per-packet report patterns".into(),
         exhaustive: true,
         bounds: json!({"histories": hs.len(), "streams": ss.iter().map(|s| (s.0, s.1.len(), s.2.len())).collect::<Vec<_>>()}),
     }
@@ -495,7 +513,7 @@ fn run_refs(ss: &[(&'static str, Vec<u8>, Vec<u8>)]) -> Vec<(Option<String>, Opt
     ss.iter()
         .enumerate()
         .map(|(si, (_n, req, resp))| {
-            let h = Hist { stream: si, client_isn: 1000, server_isn: 5000, segs: vec![(true, 0, req.len()), (false, 0, resp.len())], handshake: 0, fin: 0, probe: 0 };
+            let h = Hist { stream: si, client_isn: 1000, server_isn: 5000, segs: vec![(true, 0, req.len()), (false, 0, resp.len())], handshake: 0, fin: 0, probe: 0, syn_bytes: 0 };
             let syn = pkt::build(&Spec { src: 1, sport: 40000, dst: 2, dport: 80, flags: SYN, seq: 1000, ..Spec::default() });
             let mut a = HttpSeq::new(None, 8);
             a.feed(&syn);
